@@ -201,6 +201,10 @@ def r2_r3_greedy_loop(ctx: Context, rule2="C13.R2", rule3="C13.R3") -> None:
         strat_loops = [l for l in loops if norm(l.iter) == f"{g.task}.available_execution_strategies"]
         pool_loops = [l for l in loops if any(norm(l.iter) == f"{s}.worker_pools" for s in g.scratch)
                       and any(x is ft.ast for x in ast.walk(l))]
+        if not strat_loops and not pool_loops:
+            flat = _flattened_search(g, ft, loops)
+            if flat is not None:
+                strat_loops, pool_loops = flat
         ok = len(strat_loops) == 1 and len(pool_loops) == 1
         ctx.check(ok, rule3, f"{g.q}|tries every strategy of the task on every pool of the scratch cluster", loc(g.loop),
                   "for strategy in task.strategies: for pool in scratch.pools", "the search space is not strategies x scratch pools")
@@ -295,6 +299,40 @@ def r2_r3_greedy_loop(ctx: Context, rule2="C13.R2", rule3="C13.R3") -> None:
         # the scratch cluster is a copy made before the loop
         ctx.check(bool(g.scratch_nodes) and all(a.lineno < g.loop.lineno for a in g.scratch_nodes), rule2, f"{g.q}|scratch cluster created before the loop", loc(g.loop),
                   "copy()/deepcopy() of worker_pools", "no scratch copy of the cluster")
+
+
+class _Clause:
+    """One `for` clause of a flattened search (`for s, p in ((s, p) for s in S for p in P)` / `product(S, P)`), seen as the loop it stands for."""
+
+    def __init__(self, target: ast.AST, iter_: ast.AST):
+        self.target, self.iter = target, iter_
+
+
+def _flattened_search(g: Greedy, ft: cfgmod.Node, loops):
+    """The single loop around the fit test walks the pairs (strategy of the task, pool of the scratch cluster), strategies outermost:
+    -> ([strategy clause], [pool clause]) with the loop's own targets, else None. The pairs must be produced afresh for every task."""
+    around = [l for l in loops if any(x is ft.ast for x in ast.walk(l))]
+    if len(around) != 1:
+        return None
+    L = around[0]
+    if not (isinstance(L.target, ast.Tuple) and len(L.target.elts) == 2 and all(isinstance(e, ast.Name) for e in L.target.elts)):
+        return None
+    it = L.iter
+    if isinstance(it, ast.Name):
+        defs = [a for a in ast.walk(g.fn) if isinstance(a, ast.Assign) and any(isinstance(t, ast.Name) and t.id == it.id for t in a.targets)]
+        if len(defs) != 1 or not any(defs[0] is x for x in g.loop.body):
+            return None
+        it = defs[0].value
+    if isinstance(it, ast.GeneratorExp) and len(it.generators) == 2 and not any(c.ifs for c in it.generators) and isinstance(it.elt, ast.Tuple) \
+            and [norm(e) for e in it.elt.elts] == [norm(c.target) for c in it.generators]:
+        iters = [c.iter for c in it.generators]
+    elif isinstance(it, ast.Call) and call_name(it) == "product" and len(it.args) == 2 and not it.keywords:
+        iters = list(it.args)
+    else:
+        return None
+    if norm(iters[0]) != f"{g.task}.available_execution_strategies" or not any(norm(iters[1]) == f"{s}.worker_pools" for s in g.scratch):
+        return None
+    return [_Clause(L.target.elts[0], iters[0])], [_Clause(L.target.elts[1], iters[1])]
 
 
 def _flag_set_only_on_success(cg: cfgmod.CFG, ft: cfgmod.Node, flag: str) -> bool:
